@@ -347,6 +347,19 @@ def _stable(o, af) -> str:
 from ..selftest import Variant  # noqa: E402
 
 VARIANTS = [
+    # behaviour-preserving refactors: must stay quiet
+    Variant(
+        "quiet-adoption-chain-reordered", LINTER,
+        "                            if loop_check_tuple == (tree.raw, tuple(tree.source_fixes)):\n",
+        "                            nothing_applied = loop_check_tuple == (tree.raw, tuple(tree.source_fixes))\n                            if nothing_applied:\n",
+        "QUIET", None, "first arm's test through a local",
+    ),
+    Variant(
+        "quiet-validity-unpacked-by-name", LINTER,
+        "                            new_tree, _, _, _valid = apply_fixes(\n",
+        "                            new_tree, _before, _after, _valid = apply_fixes(\n",
+        "QUIET", None, "unused tuple components named",
+    ),
     Variant(
         "no-grammar-segment-keeps-child-validity", FIX,
         "        else:\n            # There's nothing to validate against here (e.g. a BracketedSegment),\n            # so hand the validation request on to the parent segment.\n            validated = False\n",
